@@ -32,11 +32,17 @@ Proof. reflexivity. Qed.
 Theorem C14_class_table_wf : forall c s q m, wf_ct (gen_classes c s q m).
 Proof. exact gen_classes_wf. Qed.
 Print Assumptions C14_class_table_wf.
-(* none_omitted + values_bound + type_exact for one classmethod call, any arguments: the variables
-   put on the object are the ideal ones (exact type, caller's serialised value, None omitted) *)
-Theorem C14_call_exact : forall c l args,
+(* the generated serialize expression (one call per occurrence, lists item by item, None guards on
+   nullable positions) computes the specified element-wise serialisation for every value without a
+   None at a non-null item position *)
+Theorem C14_serialize_elementwise : forall t top v, nn_ok top t v = true -> ser_t top t v = ser_spec t v.
+Proof. exact ser_t_spec. Qed.
+Print Assumptions C14_serialize_elementwise.
+(* none_omitted + values_bound + type_exact for one classmethod call: the variables put on the
+   object are the ideal ones (exact type, caller's value serialised element-wise, None omitted) *)
+Theorem C14_call_exact : forall c l args, args_conform (map (arg_meta c) l) args = true ->
   call_vars (map (arg_meta c) l) args = ideal_vars (map (arg_meta c) l) args.
-Proof. intros. apply call_vars_exact. apply arg_metas_wf. Qed.
+Proof. intros. apply call_vars_exact; [apply arg_metas_wf | assumption]. Qed.
 Print Assumptions C14_call_exact.
 
 (* ---- variable names ---------------------------------------------------------------------- *)
@@ -55,8 +61,10 @@ Print Assumptions C14_unique_var_names_operation.
 
 (* ---- the composed theorem --------------------------------------------------------------- *)
 (* For every schema and configuration, every history and every operation in which alias()/on() is
-   never applied to a class-level shared object (g_shared — the one open finding class), whenever
-   the operation builds and the expression denotes a request at all:
+   never applied to a class-level shared object (g_shared — the one open finding class) and whose
+   argument values have no None at a non-null item position of a serialised scalar (g_conform — a
+   well-typedness precondition on the caller's values), whenever the operation builds and the
+   expression denotes a request at all:
    (1) the request resolves to the ideal request: GraphQL field and argument names, every variable
        declared with the argument's exact type and bound to the caller's (serialised) value, None
        arguments omitted, at every depth;
@@ -65,6 +73,7 @@ Print Assumptions C14_unique_var_names_operation.
 Theorem C14_doc_valid : forall c s q m fuel f2 hist st es st' rq idl,
   let ct := gen_classes c s q m in
   Forall (fun es => forallb g_shared es = true) hist -> forallb g_shared es = true ->
+  forallb (g_conform ct) es = true ->
   run_hist ct fuel (store0 ct) hist = Some st ->
   run_op ct fuel st es = Some (st', rq) -> ideal_sels ct f2 es = Some idl ->
   resolves (look_req rq) (r_sels rq) = Some idl /\
@@ -120,10 +129,23 @@ Example C14_repaired_witnesses :
   = [Some true; Some true; Some true; Some true] /\
   faithful_on Demo.ct 64 [] Demo.es_collide = Some true.
 Proof. vm_compute. split; reflexivity. Qed.
+(* regression for fix 3032a3a: [Instant!] and [Instant] arguments are serialised item by item, a None
+   item of the nullable item type stays None; declared with the exact list types; faithful *)
+Example C14_serialize_list_regression :
+  option_map (fun r => (r_vardefs (snd r), r_values (snd r)))
+             (run_op Demo.ct 64 (store0 Demo.ct) [Demo.e_serlist])
+  = Some ([("at_0", "[Instant!]"); ("opt_0", "[Instant]")],
+          [("at_0", JArr [ser (JStr "a"); ser (JStr "b")]); ("opt_0", JArr [JNull; ser (JStr "c")])]) /\
+  faithful_on Demo.ct 64 [] [Demo.e_serlist] = Some true /\
+  g_conform Demo.ct Demo.e_serlist = true /\
+  (* the unguarded non-null item position: where the precondition fails the code calls serialize(None) *)
+  ser_t true (TList (TNonNull (TNamed "Instant"))) (JArr [JNull]) = JArr [ser JNull] /\
+  ser_spec (TList (TNonNull (TNamed "Instant"))) (JArr [JNull]) = JArr [JNull].
+Proof. vm_compute. repeat split. Qed.
 (* the hypotheses of C14_doc_valid are met by a two-field operation with aliases, a serialised
    scalar, sub-selections and five variables, also after itself as history *)
 Example C14_doc_valid_hypotheses_satisfiable :
-  forallb g_shared Demo.es_good = true /\
+  forallb g_shared Demo.es_good = true /\ forallb (g_conform Demo.ct) Demo.es_good = true /\
   faithful_on Demo.ct 64 [Demo.es_good; Demo.es_good] Demo.es_good = Some true /\
   option_map (fun r => List.length (r_vardefs (snd r))) (run_op Demo.ct 64 (store0 Demo.ct) Demo.es_good) = Some 5 /\
   (exists l, ideal_sels Demo.ct 64 Demo.es_good = Some l).
